@@ -108,7 +108,7 @@ Proof.
     destruct (s_pc s) eqn:Es; unfold wlocked, send_fails in *; break H; inv_some H; rewrite ?Es in *; clauses.
   - (* receiver *)
     unfold step_receiver in H. destruct (reconn s) eqn:Er; [discriminate|].
-    destruct (r_pc s) eqn:Erp; unfold wlocked, recv_fault in *; break H; inv_some H; rewrite ?Erp in *; clauses.
+    destruct (r_pc s) eqn:Erp; unfold wlocked, recv_fault, recv_end in *; break H; inv_some H; rewrite ?Erp in *; clauses.
   - (* waiter *)
     unfold step_waiter in H. destruct (w_pc s) eqn:Ew; break H; inv_some H; rewrite ?Ew in *; clauses.
   - (* closer *)
@@ -177,7 +177,7 @@ Proof.
       cbn -[Nat.mul Nat.sub] in *; rewrite ?Es, ?Er in *; destruct (a_pc s); msolve.
   - unfold step_receiver in H. destruct (reconn s) eqn:Er; [discriminate|].
     destruct (r_pc s) eqn:Erp; try match goal with k : rkind |- _ => destruct k end;
-      unfold wlocked, recv_fault in *; break H; natb; inv_some H;
+      unfold wlocked, recv_fault, recv_end in *; break H; natb; inv_some H;
       cbn -[Nat.mul Nat.sub] in *; rewrite ?Erp, ?Er in *; destruct (a_pc s); msolve.
   - unfold step_waiter in H. destruct (w_pc s) eqn:Ew; break H; natb; inv_some H;
       cbn -[Nat.mul Nat.sub] in *; rewrite ?Ew in *; destruct (a_pc s), (reconn s); msolve.
@@ -253,7 +253,7 @@ Proof.
               (* R1: the sender has returned, so the stream is broken, half closed, or shut *)
               destruct (I12 eq_refl Rc) as [X|[X|X]].
               - rewrite X. eauto.
-              - destruct (broken s); eauto. destruct (recv_fault c s); eauto. destruct (0 <? inflight s); eauto. rewrite X. eauto.
+              - destruct (broken s); eauto. destruct (recv_fault c s); eauto. destruct (recv_end c s); eauto. destruct (0 <? inflight s); eauto. rewrite X. eauto.
               - apply I13 in X. discriminate. }
         all: apply Hsender; try discriminate; intros X; try discriminate X.
         destruct (I9 eq_refl) as [Y|Y]; [right; exact Y|]. rewrite I4 in Y. discriminate.
